@@ -12,7 +12,8 @@ from ..constfold import Folder, consts_for
 from ..dataflow import Flow, chain, call_name
 from ..poly import Poly, le, lt, entails
 from ..terms import Terms, plain, match, V, ANY, show, subterms, mk_cmp, \
-    is_none, stores, method_calls, alternatives, owner_views, one_level
+    is_none, stores, method_calls, alternatives, owner_views, one_level, \
+    facts_at
 from ..util import calls_in, qual, has_fact, raises_of, raise_name
 
 MOD = "rig.machine_control.scp_connection"
@@ -209,11 +210,76 @@ def _fresh_from_helper(B):
     return True
 
 
+def _fresh_from_search(program, B):
+    """``for key in self.seq: if key not in table: break`` - the counter
+    never runs out (seqs() is an endless generator), so the loop is only
+    left through the break, where the key has just been tested."""
+    key = B.store.targets[0].slice
+    vt = getattr(B.view, "t", B.view)
+    if not isinstance(key, ast.Name):
+        return False
+    loops = [lp for lp in ast.walk(vt.fn) if isinstance(lp, ast.For) and
+             isinstance(lp.target, ast.Name) and lp.target.id == key.id and
+             id(lp) in vt.cfg.loop_head]
+    if len(loops) != 1 or loops[0].orelse:
+        return False
+    lp = loops[0]
+    SEQ = ("attr", ("param", "self"), "seq")
+    if B.view.term(lp.iter, vt.cfg.loop_head[id(lp)]) != SEQ:
+        return False
+    brks = [b_ for b_ in ast.walk(lp) if isinstance(b_, ast.Break)]
+    if len(brks) != 1 or any(isinstance(x, (ast.Return, ast.Continue))
+                             for x in ast.walk(lp)):
+        return False
+    bn = ([n for n in vt.cfg.nodes if n.ast is brks[0]] or [None])[0]
+    if bn is None:
+        return False
+    E = B.view.term(ast.Name(id=key.id, ctx=ast.Load()), bn)
+    if (mk_cmp("In", E, B.TABLE), False) not in B.view.all_facts(bn):
+        return False
+    # the generator never ends
+    seqs = program.get(MOD + ":seqs")
+    tops = [s_ for s_ in seqs.body if isinstance(s_, ast.While)]
+    if len(tops) != 1 or not (isinstance(tops[0].test, ast.Constant) and
+                              tops[0].test.value) or any(
+            isinstance(x, (ast.Break, ast.Return)) for x in ast.walk(seqs)):
+        return False
+    # nothing rebinds the key or touches the table before the insertion
+    pre = vt.cfg.stmt_node[id(lp)]
+    for n in vt.cfg.nodes:
+        if n is B.snode or n is bn or n is pre or not (
+                vt.cfg.reaches(bn, n, avoid=[pre]) and
+                vt.cfg.reaches(n, B.snode, avoid=[pre])) or \
+                _own_inside(n.ast, lp):
+            continue
+        for sub in ast.walk(n.ast) if n.ast is not None else []:
+            if isinstance(sub, ast.Call) and \
+                    isinstance(sub.func, ast.Attribute) and \
+                    B.view.term(sub.func.value, n) == B.TABLE and \
+                    sub.func.attr not in ("get", "values", "items", "keys"):
+                return False
+            if isinstance(sub, ast.Name) and sub.id == key.id and \
+                    isinstance(sub.ctx, ast.Store):
+                return False
+    return True
+
+
+def _own_inside(node, anc):
+    n = node
+    while n is not None:
+        if n is anc:
+            return True
+        n = getattr(n, "_parent", None)
+    return False
+
+
 def r2_fresh(program, rep, B, folder):
     T, inst = B.T, B.inst
     fresh = (mk_cmp("In", B.KEY, B.TABLE), False) in B.facts()
     if not fresh:
         fresh = _fresh_from_helper(B)
+    if not fresh:
+        fresh = _fresh_from_search(program, B)
     rep.check(fresh, "C06-R2", inst,
               "the key inserted has just been tested not to be in the table "
               "(the test dominates the insertion and neither the key nor the "
@@ -224,8 +290,9 @@ def r2_fresh(program, rep, B, folder):
                    "the insertion; the older command's entry would be "
                    "overwritten and its reply ignored")
     SEQ = ("attr", ("param", "self"), "seq")
-    okc = all(x[0] == "callv" and x[1] == ("global", "next") and
-              x[2][:1] == (SEQ,) for x in alternatives(B.KEY))
+    okc = all((x[0] == "callv" and x[1] == ("global", "next") and
+               x[2][:1] == (SEQ,)) or x[:2] == ("elem", SEQ)
+              for x in alternatives(B.KEY))
     rep.check(okc, "C06-R2", inst, "sequence numbers are drawn from the "
               "per-connection counter self.seq", construct="seq source",
               node=B.store)
@@ -308,7 +375,7 @@ def r3_once(program, rep, B):
             REPLY[1][2] == "recv" and SEQ[0] == "comp" and SEQ[2] == 1 and \
             plain(SEQ[1])[0] == "call" and \
             plain(SEQ[1])[1][-1] == "unpack_from" and \
-            len(SEQ[1][2]) >= 2 and SEQ[1][2][1] == REPLY
+            len(SEQ[1][2]) >= 2 and REPLY in (SEQ[1][2][0], SEQ[1][2][1])
     rep.check(okr, "C06-R3", inst, "the callback receives the bytes of "
               "the very datagram whose sequence number selected the "
               "entry", construct="reply bytes = datagram of seq",
@@ -327,6 +394,10 @@ def r3_once(program, rep, B):
     other_cb = [c for c in ast.walk(fn) if isinstance(c, ast.Call) and
                 isinstance(c.func, ast.Attribute) and
                 c.func.attr == "callback"]
+    if not invoked and not other_cb:
+        raise AnalysisError("send_scp_burst: where completed commands' "
+                            "callbacks are invoked was not found in the "
+                            "form analysed (pairs popped from a queue)")
     okq = len(invoked) == 1 and not other_cb
     if okq:
         c, ft, args = invoked[0]
@@ -393,6 +464,13 @@ def r4_retry(program, rep, B):
     if ENT is None:
         raise AnalysisError("retransmission does not send <entry>."
                             "bytestring")
+    # the entry re-sent must be read straight from the table of outstanding
+    # commands (not from a collection derived from it earlier)
+    tab_elem = [st_ for st_ in subterms(ENT) if st_ == B.TABLE]
+    if not tab_elem:
+        raise AnalysisError("send_scp_burst: the entries retransmitted are "
+                            "taken from a collection derived from the "
+                            "table; that form is not analysed")
     facts = T.all_facts(cn)
     NOW = None
     for t, p in facts:
@@ -562,12 +640,21 @@ def r5_codes(program, rep, folder, fn, fl, cfg, inst):
     T = Terms(fn)
     OK = ("attr", ("attr", ("global", "consts"), "SCPReturnCodes"), "ok")
     RETRY = ("attr", ("global", "consts"), "RETRYABLE_SCP_RETURN_CODES")
-    fat = [r for r in raises_of(fn) if raise_name(r) == "FatalReturnCodeError"]
+    fat = [r for r in ast.walk(fn) if isinstance(r, ast.Raise) and
+           raise_name(r) == "FatalReturnCodeError"]
+    if not fat:
+        raise AnalysisError("send_scp_burst: where FatalReturnCodeError is "
+                            "raised was not found")
     okret = False
     RC = None
     for r in fat:
-        rn = T.cfg.node_of(r)
-        f = T.all_facts(rn)
+        views = owner_views(T, r)
+        if len(views) != 1:
+            raise AnalysisError("send_scp_burst: the fatal raise is in a "
+                                "helper called from several places")
+        rn = views[0].cfg.node_of(r) if hasattr(views[0].cfg, "node_of") \
+            else None
+        f = facts_at(views[0], views[0].cfg.node_of(r))
         for t, p in f:
             if not p and t[0] == "cmp" and t[1] == "Eq" and OK in (t[2],
                                                                    t[3]):
@@ -621,14 +708,34 @@ def r5_codes(program, rep, folder, fn, fl, cfg, inst):
                        "%s" % (tv, it.describe(sn)))
     # and the ok branch is the only one that pops
     # ---- R6 offsets ---------------------------------------------------------------------------
-    up = [c for c in calls_in(fn, "unpack_from")]
+    up = [c for c in ast.walk(fn) if isinstance(c, ast.Call) and
+          isinstance(c.func, ast.Attribute) and c.func.attr == "unpack_from"]
     ok6 = False
-    if len(up) == 1 and len(up[0].args) == 3:
-        off = folder.eval(up[0].args[2], folder.module_env(MOD), fn._module)
-        fmt = folder.eval(up[0].args[0], folder.module_env(MOD), fn._module)
-        import struct
-        ok6 = off == struct.calcsize("<2x8B") and fmt.replace(" ", "") == \
-            "<2H"
+    if len(up) != 1:
+        raise AnalysisError("send_scp_burst: where the reply header is "
+                            "unpacked was not found")
+    import struct
+    menv = folder.module_env(MOD)
+    if len(up[0].args) == 3:
+        off = folder.eval(up[0].args[2], menv, fn._module)
+        fmt = folder.eval(up[0].args[0], menv, fn._module)
+    elif len(up[0].args) == 2 and isinstance(up[0].func.value, ast.Name):
+        # a precompiled struct.Struct(<format>) of the module
+        off = folder.eval(up[0].args[1], menv, fn._module)
+        fmt = None
+        for st_ in fn._module.tree.body:
+            if isinstance(st_, ast.Assign) and len(st_.targets) == 1 and \
+                    chain(st_.targets[0]) == up[0].func.value.id and \
+                    isinstance(st_.value, ast.Call) and \
+                    unparse(st_.value.func) in ("struct.Struct", "Struct") \
+                    and len(st_.value.args) == 1:
+                fmt = folder.eval(st_.value.args[0], menv, fn._module)
+        if fmt is None:
+            raise AnalysisError("send_scp_burst: the reply header format")
+    else:
+        raise AnalysisError("send_scp_burst: the reply header unpack call")
+    ok6 = off == struct.calcsize("<2x8B") and isinstance(fmt, str) and \
+        fmt.replace(" ", "") == "<2H"
     rep.check(ok6, "C06-R6", inst, "cmd_rc and seq are read with '<2H' at "
               "byte 10 = size of the SDP header format (pad + 8 bytes)",
               construct="reply offset", node=fn)
